@@ -241,6 +241,6 @@ def run(ctx):
         evaluations=len(cases) + len(vcases), distinct_nontrivial=len(set(c['script'] for c in cases)) + len(set(c['script'] for c in vcases)),
         rule='seeded histories; offending pointer = first / last / most recently freed / arbitrary free node (ordered list, pools), outside every chunk (before, in the header, between blocks, behind, one past the end), between node boundaries, already free (small list); blocks returned out of order or without a loan (static, virtual, fixed sources); markers above the top in the same and in a later block; valid pool / collection / stack histories in the chk and dbg8 configurations must run without any report; distinct = distinct scripts'))
     ctx.assumptions += ['double-free detection on node/array pools exists only with FOONATHAN_MEMORY_DEBUG_DOUBLE_DEALLOC_CHECK (configurations chk, dbg8, dbg16); intrusive lists have no foreign-pointer check and none is claimed',
-                        'debug_fill_free overwrites the offending node before the check runs: the abstract list state is unchanged at the report, the node\'s bytes are not']
+                        'at the moment of a report the list state AND every byte of the managed memory must be what they were before the call (ordered and small list: the freed pattern is written only after the checks, fixes c0de011 and 6025e9a)']
     if res:
         ctx.samples.append(dict(kind=res[0]['case']['tag'], script=res[0]['case']['script'].split('\n')[:10], log=[l[:200] for l in res[0]['log'].split('\n')[:6]]))
